@@ -57,7 +57,7 @@ func main() {
 		"base run = PRNG(seed,i) → (mode, window, generated stream with transactions/SELECTs/PINGs, feeding plan with idle gaps around the 100 ms frontier flush, EXEC reply delay, "+
 			"optional unrelated key in another target DB) + 3 fixed directed cases; crash points = EVERY prefix of the requests the target executed during the incremental phase, grouped by the "+
 			"bookkeeping state they leave (bisync keys incl. journal/index/frontier; one chain of 2–4 fresh tool starts per distinct state, 1 in 4 chains in another replay mode = namespace "+
-			"switch/migration); restarted runs: every state inside start-up bookkeeping/recovery/migration and between starts exhaustively, traffic-phase states by PRNG; exhaustive per observed request sequence, not over schedules; RebuildBisyncFrontier on all "+
+			"switch/migration); restarted runs: every state inside start-up bookkeeping/recovery/migration and between starts exhaustively, traffic-phase states by PRNG (thorough: a third level, PRNG third of its states); exhaustive per observed request sequence, not over schedules; RebuildBisyncFrontier on all "+
 			"subsets of ≤10 surviving journal records (observed states + synthetic windows); distinct = (mode[, other-db], modes of the restarted starts, depth, where the prefix falls: in-unit / between-units / "+
 			"between-frontier-save-and-journal-delete / inside-recovery[/journal-cleanup] / idle / after-stop, whether the resumed run repeated units)")
 	run.Watchdog(110 * time.Minute)
